@@ -750,6 +750,8 @@ const (
 type singleAsPathMatch struct {
 	asn  uint32
 	mode singleAsPathMatchMode
+	// the pattern as a regular expression, for AS_PATHs the shortcut does not cover
+	re *regexp.Regexp
 }
 
 func (lhs *singleAsPathMatch) Equal(rhs *singleAsPathMatch) bool {
@@ -803,6 +805,14 @@ var (
 )
 
 func NewSingleAsPathMatch(arg string) *singleAsPathMatch {
+	m := newSingleAsPathMatch(arg)
+	if m != nil {
+		m.re = regexp.MustCompile(strings.ReplaceAll(arg, "_", ASPATH_REGEXP_MAGIC))
+	}
+	return m
+}
+
+func newSingleAsPathMatch(arg string) *singleAsPathMatch {
 	switch {
 	case _regexpLeftMostRe.MatchString(arg):
 		asn, _ := strconv.ParseUint(_regexpLeftMostRe.FindStringSubmatch(arg)[1], 10, 32)
@@ -2179,8 +2189,29 @@ func (c *AsPathCondition) Option() MatchOption {
 func (c *AsPathCondition) Evaluate(path *Path, _ *PolicyOptions) bool {
 	if len(c.set.singleList) > 0 {
 		aspath := path.GetAsSeqList()
+		// "_<asn>_" also matches a member of an AS_SET or of a confederation
+		// segment ("_" stands for (^|[,{}() ]|$)), which the list of
+		// AS_SEQUENCE members does not show: use the regular expression then.
+		seqOnly := true
+		if attr := path.GetAsPath(); attr != nil {
+			for _, param := range attr.Value {
+				if param.GetType() != bgp.BGP_ASPATH_ATTR_TYPE_SEQ {
+					seqOnly = false
+					break
+				}
+			}
+		}
+		asString := ""
+		if !seqOnly {
+			asString = path.GetAsString()
+		}
 		for _, m := range c.set.singleList {
-			result := m.Match(aspath)
+			var result bool
+			if seqOnly || m.mode != INCLUDE || m.re == nil {
+				result = m.Match(aspath)
+			} else {
+				result = m.re.MatchString(asString)
+			}
 			if c.option == MATCH_OPTION_ALL && !result {
 				return false
 			}
